@@ -17,7 +17,7 @@ STATUS = """
 > (value specs = §2.4), `vlib/refcodec.py` + `vlib/refpeer.py` (§2.3), `vlib/simkernel.py` + `vlib/pair.py` (§2.2),
 > `vlib/servers.py` (real servers for C16/C17), `vlib/fuzz.py` + `vlib/fuzz_brine.py` (atheris campaign), `props/cNN.py`
 > (one driver per property), `tools/` (manifest generator, sensitivity runner, seeded-change harvesting / re-validation).
-> No source hook was needed in rpyc (`MANIFEST.hooks.source_commits` is empty); 15 `fix:` commits repair genuine defects
+> No source hook was needed in rpyc (`MANIFEST.hooks.source_commits` is empty); 16 `fix:` commits repair genuine defects
 > the checks found (§3).
 """
 if "**Status (as built).**" not in s:
@@ -28,14 +28,20 @@ ASBUILT = {
            "(a callee that received a callable as argument 0 calls it back, whose body crosses again, …) because the random grammar "
            "alone left 90 % of programs at depth 1; the evidence histogram reports depth, callbacks, exceptions crossing ≥ 2 hops. "
            "Configurations: default and public attributes (classic is exercised by C02/C03/C20). Classes are lent too (a class and its "
-           "instances on one connection). The identity clause uses a harness-side peek (`Pair.resolve`) to map a proxy to its target.",
+           "instances on one connection), and so are named tuples (which must arrive by reference although their base type is a tuple). "
+           "The identity clause uses a harness-side peek (`Pair.resolve`) to map a proxy to its target. Programs whose reference run "
+           "exceeds 100 nested frames are skipped before the real run (counted in the evidence).",
     "C02": "Built with a narrower but explicit world (`props/c02.py`): list, dict, set, bytearray, deque, generator/iterators (short and "
            "long), `io.BytesIO`, a class `Vec` with operators/properties/protocols, a subclass that inherits everything, and two distinct "
-           "classes sharing module and name; no real temp file. Restrictions found necessary during calibration are listed in §7 "
+           "classes sharing module and name, a class whose `__eq__` is not reflexive, comparison of a proxy with itself, and a 2 600 item "
+           "iterator consumed through `buffiter` with chunks larger than 1 000; no real temp file. Restrictions found necessary during calibration are listed in §7 "
            "(addresses in default reprs, identity hashes, frozenset iteration order, names the active policy denies, `__doc__` writes "
-           "which netrefs keep local, `__class__` of classes the requester cannot import). Two divergences are known findings, two were "
+           "which netrefs keep local, `__class__` of classes the requester cannot import, a `bytes` left operand, names of the exposed twin "
+           "that the policy renames). Two divergences are known findings, two were "
            "repaired (§3).",
-    "C03": "Built as designed except the two-hop (A–B–C) variant, which was not built. `plain()` additionally treats an integer that the "
+    "C03": "Built as designed including the two-hop (A–B–C) variant (a value travels A→B→C and a mutation made on C is observed on A "
+           "exactly when some hop passed it by reference). Every mutation step uses a fresh value, because repeating an identical mutation "
+           "cannot be told from a lost one. `plain()` additionally treats an integer that the "
            "interpreter cannot render as text (beyond `sys.get_int_max_str_digits()`) as not plain, matching C04's wording.",
     "C04": "Built as designed. Encode cases additionally include integers around and beyond the interpreter's text-conversion limit; "
            "decode cases include every possible first tag byte (enumerated) and tripwires on `pickle.loads/load/Unpickler`, "
@@ -49,46 +55,53 @@ ASBUILT = {
            "indirect routes cmp / oldslicing / ctxexit). Hooks (every subset), `restricted()` views and Service instances are enumerated on "
            "a sample of configurations. Isolation histories use `VoidService` and `SlaveService` (not `ClassicService`, whose `on_connect` "
            "needs a peer).",
-    "C07": "Built without the byte-level atheris campaign (structure-aware generation only). Added beyond the design: a *policy-denial* "
+    "C07": "Built without the byte-level atheris campaign (structure-aware generation only). A second connection that allows custom "
+           "exceptions is part of the grammar (the peer may then name any importable class; nothing may be imported or run for it beyond "
+           "what C09 allows). Added beyond the design: a *policy-denial* "
            "oracle (every by-name request the default policy denies — decided by C06's reference function on the real target object — must "
            "be answered with an exception) and a constructive attack generator aiming every by-name route (cmp, callattr, getattr, setattr, "
            "delattr, oldslicing, pickle, ctxexit) at non-exposed names on identifiers that are really held; without it the CVE-style "
            "mutation (`_handle_cmp` without the policy check) was hit only ≈ 4 times per quick run.",
     "C08": "Built as designed plus a third part: a real client against a peer that duplicates responses, answers with another value or "
            "exception for an already answered sequence number, or invents sequence numbers (the response must go to its own request and "
-           "to no other). Handler outcomes include `SystemExit`/`GeneratorExit` and an exception whose argument has a failing `repr()`.",
+           "to no other). Handler outcomes include `SystemExit`/`GeneratorExit`, an exception whose "
+           "argument has a failing `repr()` and one carrying an integer too large to render as text.",
     "C09": "Built as designed. Custom-class cases additionally include a class whose bare name equals a built-in exception's.",
     "C10": "Built with Hypothesis step lists instead of a `RuleBasedStateMachine` (same thing, simpler replay). Lendable objects are builtin "
            "lists only (no nested INSPECT while unboxing; that path is covered by C01 where it found a defect). `use` and `pass back` are "
            "issued asynchronously so that no step ever blocks; a constructive sub-generator guarantees crossings (evidence counts them). "
            "Added: a schedule part (preemption-bounded DFS at line granularity inside `RefCountingColl.add/decref`, `_box`, `_handle_del`) "
            "for 're-send races with the serving thread processing the release notice'.",
-    "C11": "Built as designed with these specifics: faults are *incoming stream ends at byte k*, *outgoing write fails at byte k* and "
+    "C11": "Built as designed plus a small real-socket part (a thread blocked in `serve()` on a loopback socket while another closes "
+           "the connection). Specifics: faults are *incoming stream ends at byte k*, *outgoing write fails at byte k* and "
            "*poll fails at index i* (an I/O error and an end-of-stream are indistinguishable at the Stream contract; the difference is "
            "C05's); positions are every operation boundary and {1, middle, last} inside every read/write of a recorded clean run. The quick "
            "tier runs a fixed 1-in-5 stride plus every second write fault, the thorough tier all plans (≈ 4 100). `serve()`/`wait()` are "
            "deliberately not preemption points in the close-order part (that reproduces C14's known windows as hangs).",
-    "C12": "Built as designed. The thorough tier's unbounded DFS of 2 threads × 1 message is complete: 1 785 660 line-level schedules.",
+    "C12": "Built as designed. The quick tier includes a bound-3 DFS of the [1,2]-message shape (frontier computed in `plan()`, "
+           "sharded). The thorough tier's unbounded DFS of 2 threads × 1 message is complete: 1 785 660 line-level schedules.",
     "C13": "Built as designed (random preemption lists; DFS with bound 1 quick / 2 thorough on the smallest shape).",
     "C14": "Built with **two** known windows instead of one (F4 and F4b, §3) and 1–2 callers. Classification is by the state in which the "
            "caller starts its last blocking wait (`blocked-between-receive-and-dispatch`, `blocked-after-reply-dispatched`); every schedule "
            "is also run with both windows closed by construction (receiver atomic from `recv()` to the end of dispatch; waiter atomic from "
            "its readiness test to its try-acquire of the receive lock; nobody preempted while holding the condition's lock), and there any "
            "stall is a VIOLATION regardless of classification.",
-    "C15": "Built as designed for a single requester thread; the second family (waiter + serving task) is C13/C14's ground and was not "
-           "duplicated. Ties, negative timeouts and cases with a time-consuming unrelated handler are held to the universal clauses only "
+    "C15": "Built as designed for a single requester thread, plus a part in which another thread holds the receive lock while the "
+           "timeout expires (the waiter must still give up at its deadline and the late reply must still land). Ties, negative timeouts and cases with a time-consuming unrelated handler are held to the universal clauses only "
            "(the evidence counts exact vs. universal-only comparisons).",
     "C16": "Built as designed on real sockets (`vlib/servers.py`); the forking server runs in a helper process. Added a *barrage* scenario "
            "(more failing clients than pool workers).",
     "C17": "Built as designed; the forking server is audited through its helper process (descriptor count of the parent). Added *flash* "
            "clients (connect and reset at once, several times).",
-    "C18": "Built in-process over scripted sockets as designed; the real-loopback repetition of the thorough tier was not built.",
+    "C18": "Built in-process over scripted sockets as designed, plus a real-loopback part (UDP and TCP registry servers on 127.0.0.1 "
+           "with real clients) in both tiers with few cases.",
     "C19": "Built as designed (`props/c19.py`, `props/c19conv.py`).",
     "C20": "Built as designed; names include leading/trailing blanks and tabs.",
 }
 for pid, text in ASBUILT.items():
     marker = "*As built (%s).*" % pid
     if marker in s:
+        s = re.sub(re.escape(marker) + r" .*$", lambda _m: marker + " " + text, s, count=1, flags=re.M)
         continue
     m = re.search(r"^### %s — .*$" % pid, s, re.M)
     if m:
@@ -106,8 +119,9 @@ Every entry below was first reported by a check as a VIOLATION with a shrunk rep
 then either repaired by one minimal unguarded `fix:` commit in /repo (the repository's 57 tests pass after each) or kept as a
 known finding with a signature specific enough that a different violation of the same property still fails the check. The
 expected findings F1–F10 of the design all materialised except that F4 turned out to be two windows (F4, F4b) and F10 was
-repaired. Eight further defects were not anticipated (C01 unboxing race, C04 huge integers, C11 concurrent cleanup, C16 pool
-authentication, C17 `server.clients` leftover and forking children, C02/C08 failing `repr()`, C02 `buffiter`, C02 `|` and `with`).
+repaired. Nine further defects were not anticipated (C01 unboxing race, C04 huge integers, C11 concurrent cleanup, C16 pool
+authentication, C16 pool descriptor re-use - found when a seeded change led to the slow-disconnect-hook scenario -, C17
+`server.clients` leftover and forking children, C02/C08 failing `repr()`, C02 `buffiter`, C02 `|` and `with`).
 
 | property | status | signature | what fails |
 |---|---|---|---|
@@ -139,7 +153,13 @@ was corrected in the machinery, never by loosening a right oracle):
 * **C01**: `callable(proxy)` is true for every proxy of a builtin instance (their class carries `type.__call__`) → objects are
   classified by `__class__`; reading `__name__` of a class proxy is denied by the default policy → not read; one class object
   shared by both simulated peers has no single owner → excluded from the identity clause.
+  A thorough-tier alarm (`outcome:class`) came from programs deep enough that the harness's own depth guard fired on one side
+  only → the guard is lower (100 frames) and a program that trips it in the reference run is skipped, not compared.
 * **C02**: see the As-built paragraph; additionally `iter()` of a `__getitem__`-only object is a *local* iterator on both sides.
+  In-place multiplication steps could grow a list until the run took minutes → multipliers are clamped (the thorough tier had
+  reported a time-out as a difference).
+* **C03** (seed 7): a history that applied the *same* mutation twice looked like a lost change on the by-reference side → each
+  mutation step writes a value not used before in that history.
 * **C03/C09**: values compared through `repr` must not contain addresses (fresh objects per run) → stable reprs; `OSError(2, …)`
   constructs a `FileNotFoundError` → the expected class is the class of the constructed object.
 * **C06**: the old-slicing route swallows the first failure by design and retries with the fallback name → a non-text name there
@@ -188,9 +208,10 @@ for n in sorted(os.listdir(seeded)):
     rows.append("| %s | %s | %s | %s |" % (n, st, needs, det_s.replace("|", "/")))
 s += """## 9. Seeded changes (independent sub-agents) and which checks catch them
 
-Forty changes were written by fresh sub-agents that saw only one property's text and a scratch worktree (two per property). Each
-was confirmed by me (demo fails with the patch, passes without, the repository's 57 tests still pass with it) before being kept
-under `seeded/<ID>-m<i>/`; `tools/seeded_run.py` re-validates all of them against the current /repo HEAD (four patches were
+Changes were written by fresh sub-agents that saw only one property's text and a scratch worktree: round 1 two per property
+(`m1`, `m2`), round 2 two more (`m3`, `m4`) by new sub-agents that were additionally given a one-line list of the *ideas* already
+used for that property (no code, nothing from /verif) so that they would look elsewhere. Each was confirmed by me (demo fails with the patch, passes without, the repository's 57 tests still pass with it) before being kept
+under `seeded/<ID>-m<i>/`; `tools/seeded_run.py` re-validates all of them against the current /repo HEAD (four round-1 patches were
 rebased by hand after the repairs changed their context; two no longer break the property because a repair made the tree tolerant
 of them) and runs the property's own check plus related ones against a scratch worktree (`VERIF_REPO`), never against /repo.
 
@@ -198,9 +219,19 @@ of them) and runs the property's own check plus related ones against a scratch w
 |---|---|---|---|
 """ + "\n".join(rows) + """
 
-Not caught, and why: see the *missed* entries above — `C16-m1` needs a client reset while its connection is still queued in the
-listen backlog (the harness cannot hold a real server's accept loop) and `C16-m2` needs two authenticating clients interleaved
-inside `Service._connect` (real OS scheduling, no control); both are noted as outside what a real-socket harness can force.
+A change counts as caught when *some* registered check reports it in its quick tier (a change written against one property
+often breaks a neighbouring one first; the second column of results shows which). Checks strengthened because a seeded change
+was missed at first: C01 (named tuples, class arguments), C02 (non-reflexive `__eq__`, self comparison, long `buffiter` chunks),
+C03 (two-hop, `deliver`), C05 (short writes of the OS shim, kernel socketpair), C07 (second connection with custom exceptions,
+identifier harvesting), C08 (huge-integer and unprintable exceptions), C11 (real-socket close, same-side overlapping close),
+C12 (bound-3 DFS in quick), C13 (DFS), C15 (held receive lock), C18 (real loopback, notification order).
+
+Not caught, and why (all four need an interleaving inside a real server or kernel that a real-socket harness cannot force, and
+the simulation kernel does not model processes or signals): `C16-m2` (two authenticating clients interleaved inside
+`Service._connect`), `C17-m3` (two children exiting close enough together for their SIGCHLDs to coalesce, leaving a zombie),
+`C17-m4` (`close()` interleaved with `accept()` returning), and `C10-m4` (a release notice racing with a *second* outstanding
+INSPECT for the same object: the C10 race part lends builtin lists, which never need INSPECT). These are stated limits of the
+machinery, not equivalences.
 
 ## 10. Sensitivity runs with deliberate breakages
 
